@@ -176,4 +176,72 @@ def writeChunks (max : Nat) : Nat → Nat → List UInt8 → List (Nat × List U
     if data.length ≤ max then [(addr, data)]
     else (addr, data.take max) :: writeChunks max fuel (addr + max) (data.drop max)
 
+/-! ### the closed system with the calling thread and the incoming thread interleaved statement by statement
+
+The host is the statement-level machine `cexec` (Model): the application calls take several steps, the network actions
+(`deliver`, `inject`, `drop`) are the incoming thread.  Every packet a step hands to `send_packet` reaches the device
+in that step - in particular the reply to a request can be delivered before the sending call has executed its next
+statement (the synchronous link is the schedule that always does this). -/
+
+inductive SAct
+  | begin (tag id addr : Nat) (data : List UInt8) (flush progressCb : Bool)
+  | beginRead (tag id addr len : Nat)
+  /-- the calling thread executes its next statement -/
+  | stepCall
+  /-- the network / the incoming thread: `deliver`, `inject` or `drop` -/
+  | net (a : Act)
+  deriving DecidableEq, Repr
+
+structure CSys where
+  host : CState
+  dev : Device
+  net : List Packet
+  faults : List UInt8
+  outs : List Out
+  deriving Repr
+
+def CSys.init (d : Device) (faults : List UInt8) : CSys := ⟨⟨St.init, none⟩, d, [], faults, []⟩
+
+def SAct.toCAct (net : List Packet) : SAct → Option CAct
+  | .begin t i a d f p => some (.begin t i a d f p)
+  | .beginRead t i a l => some (.beginRead t i a l)
+  | .stepCall => some .stepCall
+  | .net (.read ..) => none
+  | .net (.write ..) => none
+  | .net a => (a.toEv net).map CAct.env
+
+/-- the application request an atomic event is -/
+def Ev.toAct : Ev → List Act
+  | .read t i a l => [.read t i a l]
+  | .write t i a d f p => [.write t i a d f p]
+  | _ => []
+
+/-- one step; also the atomic actions this step is the linearisation point of.  `none`: the action is not possible
+now (a thread is blocked on the lock, nothing to deliver, ...) -/
+def cstepSys (cv : ConcVariant) (y : CSys) (x : SAct) : Option (CSys × List Act) :=
+  match x.toCAct y.net with
+  | none => none
+  | some ca =>
+    match cexec cv y.host ca with
+    | none => none
+    | some (c1, o1, l1) =>
+      let nb := match x with
+        | .net a => a.netBefore y.net
+        | _ => y.net
+      let f := feed y.dev y.faults (purge nb o1) o1
+      some ({ host := c1, dev := f.1, net := f.2.2, faults := f.2.1, outs := y.outs ++ o1 },
+            match x with
+            | .net a => [a]
+            | _ => l1.flatMap Ev.toAct)
+
+def crunSys (cv : ConcVariant) : CSys → List SAct → Option (CSys × List Act)
+  | y, [] => some (y, [])
+  | y, x :: xs =>
+    match cstepSys cv y x with
+    | none => none
+    | some (y1, l1) =>
+      match crunSys cv y1 xs with
+      | none => none
+      | some (y2, l2) => some (y2, l1 ++ l2)
+
 end CfVerif.C06
